@@ -535,7 +535,7 @@ theorem span_window {t0 now inc exp : Nat} (ht0 : t0 < M) (hnow : now < M) (hinc
 theorem step_secure (sigValid : SigOracle) (cfg : CacheConfig)
     (past : List Request) (r : Request) (v : Verdict) (fresh : Bool)
     (hs : StepSound sigValid cfg serve past r v fresh) (hsec : v.proof = .secure) (hb : Bounds r)
-    (hpair : ∀ r' ∈ past, KeyFaithful r' r ∧ Bounds r') :
+    (hpair : ∀ r' ∈ past, KeyFaithful r' r ∧ r'.now < M) :
     SecureOK sigValid r ∧ TtlOK r v := by
   obtain ⟨hnow, hinc, hexp, hwf⟩ := hb
   rcases hs with ⟨_, hv⟩ | ⟨_, r', hr', hck, t, ht, hlive, hv⟩
@@ -549,9 +549,8 @@ theorem step_secure (sigValid : SigOracle) (cfg : CacheConfig)
     rw [ht'] at h0
     simp only [Option.some.injEq] at h0
     omega
-  · obtain ⟨hkf, hb'⟩ := hpair r' hr'
+  · obtain ⟨hkf, hnow'⟩ := hpair r' hr'
     obtain ⟨hsig, hkn, hkt, hrec⟩ := hkf hck
-    obtain ⟨hnow', _, _, _⟩ := hb'
     -- the verdict served has the proof of the stored one
     have hsec' : (freshVerdict sigValid r').proof = .secure := by
       simp only [serve, entryOf] at hv
@@ -596,10 +595,10 @@ theorem cache_sound (sigValid : SigOracle) (cfg : CacheConfig) (hist : List Requ
     (hb : ∀ r ∈ hist, Bounds r) (hkey : hist.Pairwise KeyFaithful) :
     AllSecure (fun r v => SecureOK sigValid r ∧ TtlOK r v) hist
       (runHistory sigValid cfg [] hist) :=
-  allSecure_of_sound sigValid cfg serve _ KeyFaithful Bounds Bounds
+  allSecure_of_sound sigValid cfg serve _ KeyFaithful Bounds (fun r => r.now < M)
     (fun past r v fresh hs hsec hb hp => step_secure sigValid cfg past r v fresh hs hsec hb hp)
     [] hist _ (cache_provenanceG sigValid cfg serve hist)
-    (fun r hr => ⟨hb r hr, hb r hr⟩) (by simp) hkey
+    (fun r hr => ⟨hb r hr, (hb r hr).1⟩) (by simp) hkey
 
 /-! ### concrete values: non-vacuity -/
 
